@@ -25,6 +25,7 @@ from . import coqbuild
 STDS = ["c++11", "c++14", "c++17", "c++20"]
 O2 = ["-O2"]
 MAX_REPORTED = 8
+NGROUPS = 20   # memdrv.cpp is built as 20 units (-DGROUP=4*element type + family) so that the builds run in parallel
 
 ALGO_COQ = {"copy_n": "ACopyN", "copy": "ACopy", "move_n": "AMoveN", "move": "AMove", "value_n": "AValueN", "value": "AValue",
             "default_n": "ADefaultN", "default": "ADefault", "relocate_n": "ARelocN", "relocate": "AReloc",
@@ -95,20 +96,31 @@ def build_and_run(tier):
 
     def one(job):
         std, opt, flags = job
-        name = "memdrv_" + std.replace("+", "x")
-        d, errors = build.build("c15-%s-%s" % (opt, std), [(name, "memdrv.cpp", [])], None, flags, std=std)
+        names = ["memdrv_g%02d" % g for g in range(NGROUPS)]
+        d, errors = build.build("c15-%s-%s" % (opt, std), [(nm, "memdrv.cpp", ["-DGROUP=%d" % g]) for g, nm in enumerate(names)],
+                                None, flags, std=std)
         if errors:
-            return job, ({}, {}, [], errors[name][-3000:])
+            first = sorted(errors)[0]
+            return job, ({}, {}, [], "%d of %d units failed to build; %s:\n%s" % (len(errors), NGROUPS, first, errors[first][-3000:]))
         env = dict(os.environ)
         env["ASAN_OPTIONS"] = "detect_leaks=0:abort_on_error=0"
-        rc, so, se = C.run([os.path.join(d, name), str(maxn)], timeout=1200, env=env)
-        cases, stds, problems = parse(so)
-        if rc != 0:
-            problems.append("driver exit code %d: %s" % (rc, se[-500:]))
+
+        def run_one(nm):
+            return C.run([os.path.join(d, nm), str(maxn)], timeout=1200, env=env)
+
+        cases, stds, problems = {}, {}, []
+        with ThreadPoolExecutor(max_workers=4) as ex2:
+            for nm, (rc, so, se) in zip(names, ex2.map(run_one, names)):
+                c1, s1, p1 = parse(so)
+                cases.update(c1)
+                stds.update(s1)
+                problems += ["%s: %s" % (nm, x) for x in p1]
+                if rc != 0:
+                    problems.append("%s: driver exit code %d: %s" % (nm, rc, se[-500:]))
         return job, (cases, stds, problems, None)
 
     t0 = time.time()
-    with ThreadPoolExecutor(max_workers=len(jobs)) as ex:
+    with ThreadPoolExecutor(max_workers=4) as ex:
         res = dict(((j[0], j[1]), r) for j, r in ex.map(one, jobs))
     return res, time.time() - t0, maxn
 
@@ -194,7 +206,7 @@ def run_coq(items):
             continue
         body = block[block.index("=") + 1:]
         for inner in re.findall(r"\[([^\[\]]*)\]", body):
-            results.append([int(x) for x in inner.replace("\n", " ").split(";") if x.strip()])
+            results.append([int(x) for x in inner.replace("%Z", "").replace("\n", " ").split(";") if x.strip()])
     if len(results) != len(items):
         return None, "expected %d results from coqc, parsed %d" % (len(items), len(results)), secs
     return results, "", secs
